@@ -139,6 +139,17 @@ def gen(seed, tier):
         # lcm / gcd at zero, division by an array containing zero
         out.append(f"{op}@i32 a2:0,0 a2:0,5")
         out.append(f"{op}@i32 a2x2:1,2,3,4 a2:1,0")
+    # unsigned element types against the exact values (seeded change C04i: subtract as add(negative()) saturates -b to 0
+    # for unsigned types; the scalar table is the library's own and cannot show it): operands chosen so that every
+    # result stays inside u8
+    for op in ZMODEL:
+        for k, (s1, s2) in enumerate(pairs):
+            if k % 4 != 0 and tier == "quick":
+                continue
+            e1 = [rng.randint(5, 15) for _ in range(prod(s1))]
+            hi = 2 if op == "power" else (3 if "shift" in op else 5)
+            e2 = [rng.randint(0 if op not in GUARD else 1, hi) for _ in range(prod(s2))]
+            out.append(f"{op}@u8 {arr(s1, e1)} {arr(s2, e2)}")
     # commutativity on equal shapes: both orders as separate cases (each compared with the model), floats by table
     for op in COMM:
         for sh in list(shapes(3, 3))[:: 2 if tier == "quick" else 1]:
